@@ -1,4 +1,4 @@
-// vcheck: plain build (no overlay) explorers.
+// explorer binary for C17 (plain build, no overlay)
 package main
 
 import (
